@@ -12,5 +12,5 @@ OkSite(r) ==
 OkAgg(r) == r.total > 0 /\ r.panics = 0 /\ (IF r.site = "permuted" THEN r.accepted = r.total ELSE r.accepted = 0)
 OkLine(r) == CASE r.ev = "site" -> OkSite(r) [] r.ev = "blsagg" -> OkAgg(r) [] OTHER -> FALSE
 INSTANCE LinesTrace WITH Ok <- OkLine
-ASSUME TLCSet(1, 0) /\ TLCSet(2, {})
+ASSUME TLCSet(1, 0) /\ TLCSet(2, {}) /\ TLCSet(3, ndJsonDeserialize("trace.ndjson"))
 ====
